@@ -112,6 +112,27 @@ Proof.
         -- injection E' as <- _. cbn [existsb is_warning orb] in Q. discriminate.
 Qed.
 
+(** from a warn-mode run with a well-shaped trace containing an out-of-range leaf to the strict result (any root but a stream) *)
+Lemma first_bad_of_run T r bs tw sw a items evs pa p z off :
+  is_stream_root r = false -> dec_root T false r (init_st bs) = (tw, sw, Ok a) -> shape tw items ->
+  until_bad (Z.of_nat (List.length bs)) items 0 = (evs, Some (pa, p, z, off)) ->
+  decode T true r bs = (evs, ORaised (EValue pa (pname p) z VSType) (skipZ bs off)).
+Proof.
+  intros Hr Ew Sh U.
+  pose proof (agree_dec_root T r (init_st bs)) as Ag.
+  destruct (dec_root T true r (init_st bs)) as [[tr s'] os] eqn:Er.
+  pose proof (strict_is_quiet T r _ _ _ _ Er) as Q.
+  destruct os as [a0|e| |k|]; try (rewrite Ew in Ag; discriminate).
+  - exfalso. rewrite Ew in Ag. injection Ag as -> _ _. rewrite (shape_has_warning _ _ _ Sh _ _ _ U) in Q. discriminate.
+  - destruct Ag as [(pre & rest & s'' & o'' & Ea & O)|Ea]; [|rewrite Ew in Ea; discriminate].
+    rewrite Ew in Ea. injection Ea as -> _ _.
+    destruct (first_bad_trace _ _ _ Sh tr pre e rest 0 evs pa p z off eq_refl Q O U) as (S1 & -> & ->).
+    unfold decode, pump. rewrite Er, Hr.
+    destruct (pump_go_nostream (Z.of_nat (List.length bs)) tr (mkP 0 None [])) as (ps & G & _ & N).
+    rewrite G. pose proof (pump_go_stamps _ _ _ _ _ _ G) as Out. cbn [ps_out ps_nrd rev app] in Out, N.
+    rewrite Out, S1, N. reflexivity.
+Qed.
+
 (** C04 for every structure type: whenever the input is structurally consistent for type [t] and some leaf of the
     field-by-field reading is out of range, strict decoding emits exactly the events of the fields before the
     first such leaf (in wire order, with the specified look-ahead), then raises the value error naming that leaf's
@@ -123,26 +144,12 @@ Proof.
   cbn [flat_map]. rewrite app_nil_r.
   destruct (until_bad (Z.of_nat (List.length bs)) (items_of v) 0) as [evs0 [[[[pa p] z] off]|]] eqn:U; [|discriminate].
   intros [= <- <-].
-  (* the warn-mode run *)
   destruct (sim_all T false) as (St & _).
   assert (W0 : wf_st (mkSt bs [] [])) by (split; constructor).
   destruct (St t root_path None false bs v [] (mkSt bs [] []) Es (ok_leaves_false v) W0 eq_refl ltac:(unfold blen; cbn; lia) ltac:(constructor))
     as (tw & sw & a & c & E & Sh & _).
-  assert (Ew : dec_root T false (RType t) (init_st bs) = (tw, sw, Ok a)).
-  { cbn [dec_root]. unfold bind. cbn [set_lst init_st inp store lst]. rewrite E. reflexivity. }
-  (* the strict run *)
-  pose proof (agree_dec_root T (RType t) (init_st bs)) as Ag.
-  destruct (dec_root T true (RType t) (init_st bs)) as [[tr s'] os] eqn:Er.
-  pose proof (strict_is_quiet T (RType t) _ _ _ _ Er) as Q.
-  destruct os as [a0|e| |k|]; try (rewrite Ew in Ag; discriminate).
-  - exfalso. rewrite Ew in Ag. injection Ag as -> _ _. rewrite (shape_has_warning _ _ _ Sh _ _ _ U) in Q. discriminate.
-  - destruct Ag as [(pre & rest & s'' & o'' & Ea & O)|Ea]; [|rewrite Ew in Ea; discriminate].
-    rewrite Ew in Ea. injection Ea as -> _ _.
-    destruct (first_bad_trace _ _ _ Sh tr pre e rest 0 evs0 pa p z off eq_refl Q O U) as (S1 & -> & ->).
-    unfold decode, pump. rewrite Er. cbn [is_stream_root].
-    destruct (pump_go_nostream (Z.of_nat (List.length bs)) tr (mkP 0 None [])) as (ps & G & _ & N).
-    rewrite G. pose proof (pump_go_stamps _ _ _ _ _ _ G) as Out. cbn [ps_out ps_nrd rev app] in Out, N.
-    rewrite Out, S1, N. reflexivity.
+  apply (first_bad_of_run T (RType t) bs tw sw a (items_of v) evs0 pa p z off eq_refl); [|exact Sh|exact U].
+  cbn [dec_root]. unfold bind. cbn [set_lst init_st inp store lst]. rewrite E. reflexivity.
 Qed.
 
 (** ---- "if and only if" *)
